@@ -33,6 +33,10 @@ TRUSTED_EXTRA = [
     "search oracle: truncated projected-steepest-descent (Cauchy) step recomputed independently in Python (longdouble model values)",
 ]
 
+EXPLANATION = ("Theorems: box clause for every input and rounding (final clipping; both return paths of the port end in it), gnew = g + H d invariant of "
+               "both loops' updates and first-step (Cauchy) decrease in exact arithmetic. Correspondence: line-by-line Lean Float port of trsbox/alt_trust_step vs "
+               "the Python under three summation variants (n=1 and d_within_bounds bit for bit). Search: all five clauses on the real function over the property's grid.")
+
 EPS = np.finfo(float).eps
 
 
